@@ -49,7 +49,7 @@ func VerifNewRig(name string, cfg *service.Config, hosts []*host.Host, addrs []s
 		clients[a] = &client{
 			cfg:            p.cfg,
 			logger:         logger,
-			pendingReqs:    make(chan *simpleRequest, 1<<16),
+			pendingReqs:    make(chan *simpleRequest, 4096),
 			processingReqs: make(chan *simpleRequest, 1),
 			onRedirection:  p.u.handleRedirection,
 			onClusterDown:  p.u.handleClusterDown,
